@@ -261,6 +261,18 @@ def widened_cases(ctx, nn):
         spec = dict(engine=eng, k=k, opts=random_opts(rng, eng, k, light=(t % 16 >= 8)), cont=rng.choice(CONTAINERS),
                     form=rng.choice(['kw', 'kw', 'pos']))
         add('options', spec, seqs)
+    # (c2) kdtree on MORE workers than a length class has sequences: one search per length class, classes of two or three neighbouring
+    # sequences, n_cpu 3..8 (a chunk size computed per class must not become 0)
+    for t in range(10 if q else 150):
+        n_cpu = rng.choice([3, 4, 5, 8])
+        seqs = []
+        for L in rng.sample(range(2, 12), rng.randint(2, 4)):
+            root = ''.join(rng.choice(gens.AA) for _ in range(L))
+            for _ in range(rng.randint(2, min(3, n_cpu - 1))):
+                j = rng.randrange(L)
+                seqs.append(root[:j] + rng.choice(gens.AA) + root[j + 1:])
+        rng.shuffle(seqs)
+        add('workers_exceed_length_class', dict(engine='kdtree', k=rng.choice([1, 2]), opts=dict(n_cpu=n_cpu), cont='list'), seqs)
     # (d) shapes of the length classes and sizes 1, 2; the empty string is a sequence of length 0
     for t in range(72 if q else 1800):
         kind = SHAPES[t % len(SHAPES)]
